@@ -45,20 +45,20 @@ def oracle(tier, rng, deep=False):
         cols = [] if unpen is None else list(np.where(unpen)[0])
         A = np.column_stack([X[:, cols]] + ([np.ones(n)] if fi else [])) if (cols or fi) else np.zeros((n, 0))
         th = np.zeros(A.shape[1])
-        for _ in range(400):                      # Newton-free: plain gradient descent with backtracking on the documented loss
-            if A.shape[1] == 0:
-                break
-            z = A @ th
-            h = 1e-6
-            rg = np.array([(sl.doc_loss(dname, DP, y, z + h * np.eye(n)[i]) - sl.doc_loss(dname, DP, y, z - h * np.eye(n)[i])) / (2 * h) for i in range(n)])
-            g = A.T @ rg
-            if np.max(np.abs(g)) < 1e-10:
-                break
-            t = 1.0
-            f0 = sl.doc_loss(dname, DP, y, z)
-            while sl.doc_loss(dname, DP, y, A @ (th - t * g)) > f0 - 0.3 * t * g @ g and t > 1e-12:
-                t /= 2
-            th = th - t * g
+        if A.shape[1] and dname == "Quadratic":
+            th = np.linalg.lstsq(A, y, rcond=None)[0]                 # exact optimal unpenalised part
+        elif A.shape[1]:
+            assert not cols                                           # non-quadratic: intercept only, 1-d bisection on dF/db
+            lo, hi = -30.0, 30.0
+            for _ in range(200):
+                m = (lo + hi) / 2
+                h_ = 1e-6
+                d = (sl.doc_loss(dname, DP, y, np.full(n, m + h_)) - sl.doc_loss(dname, DP, y, np.full(n, m - h_))) / (2 * h_)
+                if d > 0:
+                    hi = m
+                else:
+                    lo = m
+            th = np.array([(lo + hi) / 2])
         z = A @ th if A.shape[1] else np.zeros(n)
         h = 1e-6
         rg = np.array([(sl.doc_loss(dname, DP, y, z + h * np.eye(n)[i]) - sl.doc_loss(dname, DP, y, z - h * np.eye(n)[i])) / (2 * h) for i in range(n)])
@@ -117,6 +117,8 @@ def oracle(tier, rng, deep=False):
             wts = np.array([rng.choice([0.0, 0.5, 1.0, 2.0]) for _ in range(p)])
             if kind == "WeightedL1" and not np.any(wts):
                 wts[0] = 1.0
+            if kind == "WeightedL1" and dname != "Quadratic":
+                wts = np.where(wts == 0, 1.0, wts)              # unpenalised features can diverge on separable logistic data
             unpen = (wts == 0) if kind == "WeightedL1" else None
             g0, th = null_grad(dname, {}, X, y, fi, unpen)
             if kind == "L1":
